@@ -126,11 +126,14 @@ TAMPER_OUT = ["out_spk_attacker_p2sh", "out_spk_attacker_p2wsh", "out_spk_p2pkh"
               "spend_gets_change_metadata", "out_amount_changed",
               # not an attack: a payment to a script without an address form (or of an unusual kind); the
               # summary may refuse it, but if it is given its sums must still add up
-              "spend_script_kind", "spend_script_kind"]
+              "spend_script_kind", "spend_script_kind",
+              # not an attack either: a segwit input that carries both UTXO forms, in agreement
+              "both_utxo_forms_consistent"]
 SPEND_KINDS = ["op_return_zero", "op_return_value", "op_return_value", "p2sh", "p2wpkh", "p2wsh", "p2tr",
                "p2pk", "bare_multisig", "empty", "op_true", "witness_v2"]
 TAMPER_IN = ["in_foreign_script", "in_wrong_path", "in_foreign_fingerprint", "in_key_swapped",
-             "in_prev_tx_amount", "in_prev_tx_other", "in_changed_quorum_script"]
+             "in_prev_tx_amount", "in_prev_tx_other", "in_changed_quorum_script",
+             "in_witness_utxo_contradicts_prev_tx", "in_p2sh_as_witness_utxo_foreign_script"]
 
 
 _TAMPER_CHOICE = choice(TAMPER_OUT + TAMPER_IN)
@@ -267,11 +270,11 @@ def describe(blob, hmap):
 def input_total(pm):
     total = 0
     for kvs, tin in zip(pm["inputs"], pm["tx"]["ins"]):
-        for k, v in kvs:
-            if k == b"\x00":
-                total += psbtmap.read_tx_legacy(v)["outs"][tin["index"]]["amount"]
-            elif k == b"\x01":
-                total += int.from_bytes(v[:8], "little")
+        d = dict(kvs)
+        if b"\x00" in d:  # the previous transaction (bound to the outpoint by its id) is authoritative
+            total += psbtmap.read_tx_legacy(d[b"\x00"])["outs"][tin["index"]]["amount"]
+        elif b"\x01" in d:
+            total += int.from_bytes(d[b"\x01"][:8], "little")
     return total
 
 
@@ -474,22 +477,59 @@ def check_tamper(case, ctx):
         else:
             ptx["ins"][0]["prev"] = bytes(32)
         pm["inputs"][j][i] = (k, psbtmap.write_tx_legacy(ptx))
+    elif t == "in_p2sh_as_witness_utxo_foreign_script":
+        # a legacy P2SH input presented with a witness UTXO (same scriptPubKey and amount) instead of the
+        # previous transaction, and with a redeem script the scriptPubKey does not commit to
+        if kind != "p2sh":
+            raise Discard("legacy P2SH inputs only")
+        j = w % len(pm["inputs"])
+        p = info["prevs"][j]
+        spk = Model.spk(model.script(0, p["idx"]), kind)
+        kvs = [(k, v) for k, v in pm["inputs"][j] if k != b"\x00"]
+        pm["inputs"][j] = [(b"\x01", p["amount"].to_bytes(8, "little") + txser.varstr(spk))] + kvs
+        set_kv(pm["inputs"][j], IN_SCRIPT_KEY, att_script)
+    elif t == "both_utxo_forms_consistent":
+        if kind != "p2wsh":
+            raise Discard("witness UTXOs belong to segwit inputs")
+        j = w % len(pm["inputs"])
+        p = info["prevs"][j]
+        kvs = [(k, v) for k, v in pm["inputs"][j] if k not in (b"\x00", b"\x01")]
+        spk = Model.spk(model.script(0, p["idx"]), kind)
+        pm["inputs"][j] = [(b"\x00", p["raw"]), (b"\x01", p["amount"].to_bytes(8, "little") + txser.varstr(spk))] + kvs
+    elif t == "in_witness_utxo_contradicts_prev_tx":
+        # the input carries BOTH the previous transaction and a witness UTXO (BIP174 allows that for segwit
+        # inputs); the witness UTXO claims another amount (or script) than the output it refers to
+        if kind != "p2wsh":
+            raise Discard("witness UTXOs belong to segwit inputs")
+        j = w % len(pm["inputs"])
+        p = info["prevs"][j]
+        kvs = [(k, v) for k, v in pm["inputs"][j] if k not in (b"\x00", b"\x01")]
+        spk = Model.spk(model.script(0, p["idx"]), kind)
+        if d % 3:
+            lie = (p["amount"] + d).to_bytes(8, "little") + txser.varstr(spk)
+            ctx.label("witness_utxo_amount_lies")
+        else:
+            lie = p["amount"].to_bytes(8, "little") + txser.varstr(Model.spk(att_script, kind))
+            ctx.label("witness_utxo_script_lies")
+        pm["inputs"][j] = [(b"\x00", p["raw"]), (b"\x01", lie)] + kvs
     else:
         raise AssertionError(t)
     edited = psbtmap.serialize(pm)
-    assert edited != blob
+    assert edited != blob or t == "both_utxo_forms_consistent"
     st_, desc = describe(edited, hmap)
     if st_ == "exc":
         ctx.label("rejected")
+        ctx.label(f"{t}:rejected")
         return
     ctx.label("summarised")
+    ctx.label(f"{t}:summarised")
     if input_tamper:
         require(False, f"tamper/{t}:summarised_instead_of_rejected", f"kind={kind} m={m} n={n}")
     pm2 = psbtmap.parse(edited)
     check_summary(desc, pm2, model, f"tamper/{t}")
     if t == "second_change_output":
         require(sum(1 for o in desc["outputs_desc"] if o["is_change"]) <= 1, "tamper/two_change_outputs_labelled")
-    if t in ("out_amount_changed", "spend_script_kind"):
+    if t in ("out_amount_changed", "spend_script_kind", "both_utxo_forms_consistent"):
         return  # an honest summary of the altered amounts / of the unusual payment is fine
     if ci is not None and t not in ("second_change_output", "spend_gets_change_metadata"):
         # the tampered output must not be presented as change
